@@ -127,3 +127,51 @@ def setup_failures(case, impl):
         if not r.startswith("ok"):
             out.append({"site": "setup", "msg": f"{o} -> {r}"})
     return out
+
+
+def parse_qty_out(out):
+    """'ok qty n/d@sym:Cls' -> (Fraction, sym, Cls) or None"""
+    if not out.startswith("ok qty "):
+        return None
+    body = out[7:]
+    a, _, rest = body.partition("@")
+    sym, _, cls = rest.rpartition(":")
+    try:
+        return parse_rat(a), sym, cls
+    except Exception:
+        return None
+
+
+def dim_add(d1, d2, sign=1):
+    d = dict(d1)
+    for k, e in d2.items():
+        d[k] = d.get(k, 0) + sign * e
+    return {k: e for k, e in d.items() if e}
+
+
+def dim_pow(d1, n):
+    return {k: e * n for k, e in d1.items() if e * n}
+
+
+def check_value_result(ctx, mode, out, ref_value, dim, what):
+    """Independent check of a product/quotient/power result by VALUE:
+    right class for the combined dimension, reference value exact (or rounded
+    once to the result unit's quantum)."""
+    if not dim:
+        exp = "ok num " + rat(ref_value)
+        return None if out == exp else f"{what} -> {out}, expected {exp}"
+    cls = ctx.class_with_dim(dim)
+    if cls is None:
+        return None if out == "err UndefinedResultError" else \
+            f"{what} -> {out}, but no declared type has dimension {dim}"
+    got = parse_qty_out(out)
+    if got is None:
+        return f"{what} -> {out}, expected a {cls}"
+    amt, sym, gcls = got
+    if gcls != cls or sym not in ctx.units or ctx.units[sym]["cls"] != cls:
+        return f"{what} -> {out}, expected type {cls}"
+    sc = ctx.units[sym]["scale"]
+    want = ctx.grid(sym, ref_value / sc, mode)
+    if amt != want:
+        return f"{what} -> {out}, expected amount {rat(want)} {sym} (reference value {rat(ref_value)})"
+    return None
